@@ -273,7 +273,7 @@ func runC10(c *Ctx) {
 	}
 
 	// ---- C10.R
-	c.Rule("C10.R", "the session cookie never reaches the backend; jars and cookie URL are the caller's own", 19)
+	c.Rule("C10.R", "the session cookie never reaches the backend; jars and cookie URL are the caller's own", 20)
 	if rs := c.need(p, "C10.R", "agent/sessions.(*sessionHandler).restoreSession"); rs != nil {
 		del := []ssa.Instruction{}
 		for _, call := range Calls(rs, "(net/http.Header).Del") {
@@ -394,6 +394,25 @@ func runC10(c *Ctx) {
 				c.PathIs("C10.R", "writer:store-intercepted-cookies", p, sc.Pos(), a[2], "the cookies stored are the backend's intercepted ones", "result:(*net/http.Response).Cookies")
 			}
 		}
+	}
+	// the session handler that wraps the shim's open handler must see the restored target URL
+	if se := resolveShimEndpoints(c, p, "C10.R"); se != nil && se.ByName["open"] != nil {
+		op := se.ByName["open"]
+		var urlStore, deleg ssa.Instruction
+		for _, m := range requestMutations(op) {
+			if m.Kind == "field:URL" {
+				urlStore = m.Instr
+			}
+		}
+		for _, call := range Calls(op, "(net/http.Handler).ServeHTTP") {
+			rs := Roots(Args(CallOf(call))[0])
+			if len(rs) == 1 {
+				if wc, ok := rs[0].(*ssa.Call); ok && PathOf(wc.Call.Value) == P(se.Create, 4) {
+					deleg = call
+				}
+			}
+		}
+		c.Check("C10.R", "shim-open:session-handler-sees-restored-url", p, op.Pos(), urlStore != nil && deleg != nil && Dominates(urlStore, deleg), "the open endpoint restores r.URL from the body before it delegates to the handler wrapped by openWebsocketWrapper (the session handler), so the jar is consulted for the websocket's real URL", "the session wrapper of the shim open handler does not run after r.URL was restored from the request body: cookies are looked up for <shimPath>/open instead of the websocket's URL, so path-scoped cookies of the session are missing from the backend handshake")
 	}
 	if ex := c.need(p, "C10.R", "agent/sessions.(*sessionHandler).extractSessionID"); ex != nil {
 		if ck := c.UniqueCall("C10.R", p, ex, false, "(*net/http.Request).Cookie"); ck != nil {
